@@ -158,7 +158,7 @@ func tTag(c context, s []byte) (context, int) {
 	return context{
 		state:   state,
 		element: c.element,
-		attr:    attr{name: strings.ToLower(string(s[i:j]))},
+		attr:    attr{name: asciiLower(s[i:j])},
 		linkRel: c.linkRel,
 	}, j
 }
@@ -344,6 +344,20 @@ func eatAttrName(s []byte, i int) (int, *Error) {
 		}
 	}
 	return len(s), nil
+}
+
+// asciiLower returns s with the ASCII upper-case letters replaced by lower-case ones,
+// the way an HTML parser normalises attribute names: other letters stay as they are
+// (`checKed` with U+212A KELVIN SIGN is not the checked attribute).
+func asciiLower(s []byte) string {
+	b := make([]byte, len(s))
+	for i, c := range s {
+		if 'A' <= c && c <= 'Z' {
+			c += 'a' - 'A'
+		}
+		b[i] = c
+	}
+	return string(b)
 }
 
 // asciiAlpha reports whether c is an ASCII letter.
